@@ -96,15 +96,22 @@ Theorem c12_opacity :
 Proof. exact opacity_proof. Qed.
 Print Assumptions c12_opacity.
 
-(* HISTORIES.  On one Ribosome instance the outcome (text, warnings, error - and the taint
-   outcome) of every call of a history is the outcome the same call has on a fresh instance:
-   a function of (registered templates, strict, context, template) only.  Whatever an earlier
-   call did - rendered, raised inside an include, bumped the counters - leaves no trace. *)
-Theorem c12_render_is_function_of_its_inputs :
-  forall T strict n cls,
-    Model.run_calls (Model.mkInstance T strict n) cls =
-    map (fun cl : Model.call =>
-           (render_impl strict (print_templates T) (snd cl) (print (fst cl)),
-            Model.render_taint strict (print_templates T) (snd cl) (print (fst cl)))) cls.
-Proof. exact history_independent_proof. Qed.
-Print Assumptions c12_render_is_function_of_its_inputs.
+(* HISTORIES.  On one Ribosome instance every operation of a history - registrations
+   (create_template, register_template with or without a name override, re-registration),
+   synthesize / translate of an mRNA object, translate by name - answers the pure function
+   [result_on] of (the registry AS IT IS AT THAT MOMENT, strict, the operation): for a render,
+   render_impl on the current registry.  Whatever an earlier call did - rendered, raised inside
+   an include, bumped the counters, carried an mRNA whose own .name equals a registered name -
+   leaves no trace. *)
+Theorem c12_render_uses_current_registry :
+  forall T strict n os,
+    Model.run_ops (Model.mkInstance T strict n) os = replay strict T os.
+Proof. exact current_registry_proof. Qed.
+Print Assumptions c12_render_uses_current_registry.
+
+(* ... where a registration is dict assignment on the registry *)
+Theorem c12_registration_is_assignment :
+  forall T n t m,
+    lookup (Model.reg_set T n t) m = if str_eqb n m then Some t else lookup T m.
+Proof. exact lookup_reg_set. Qed.
+Print Assumptions c12_registration_is_assignment.
